@@ -51,6 +51,13 @@ type Contract struct {
 	RecvNotNil bool
 	GhostExit  []GhostAssign // ghost assignments performed at every normal exit
 	Opaque     map[string]bool // predicates kept as atoms inside this function\'s proof (opaque / reveal)
+	Asserts    []AssertClause // mid-function assertions (proved, then assumed) after the k-th call of a callee
+}
+
+type AssertClause struct {
+	Callee string
+	K      int
+	Clause Clause
 }
 
 type GhostAssign struct {
@@ -108,7 +115,7 @@ const modulePath = "github.com/streamingfast/substreams"
 var tagRe = regexp.MustCompile(`\[(C[0-9]+(?:,\s*C[0-9]+)*)\]`)
 
 var clauseKeywords = map[string]bool{"requires": true, "ensures": true, "xensures": true, "panics_if": true, "modifies": true,
-	"loop": true, "arith": true, "trusted": true, "inline": true, "nosafety": true, "pure": true, "fresh": true, "assume": true, "ghost_exit": true, "opaque": true}
+	"loop": true, "arith": true, "trusted": true, "inline": true, "nosafety": true, "pure": true, "fresh": true, "assume": true, "ghost_exit": true, "opaque": true, "assert": true}
 
 var topKeywords = map[string]bool{"ghostfield": true, "func": true, "spec": true, "pred": true, "lemma": true, "purepkg": true, "const": true, "uninterp": true}
 
@@ -359,6 +366,21 @@ func (c *Contract) addClause(p rawLine, path string) error {
 		default:
 			return fmt.Errorf("unknown loop clause %q", f[1])
 		}
+	case "assert":
+		// assert after <callee>[#k]: <expr>
+		m := regexp.MustCompile(`^after\s+([A-Za-z0-9_.$]+)(?:#([0-9]+))?\s*:\s*(.*)$`).FindStringSubmatch(rest)
+		if m == nil {
+			return fmt.Errorf("assert clause: want 'assert after <callee>[#k]: <expr>'")
+		}
+		k := 0
+		if m[2] != "" {
+			k, _ = strconv.Atoi(m[2])
+		}
+		cl, err := c.mkClause(m[3], path, p.line)
+		if err != nil {
+			return err
+		}
+		c.Asserts = append(c.Asserts, AssertClause{Callee: m[1], K: k, Clause: cl})
 	case "opaque":
 		if c.Opaque == nil {
 			c.Opaque = map[string]bool{}
